@@ -717,6 +717,16 @@ func (c *Context) Failed(fault vivid.Message) {
 }
 
 func (c *Context) onSupervise(supervisionContext *supervisionContext) {
+	if atomic.LoadInt32(&c.state) != running {
+		// 监督者自身已处于终止流程：其子 Actor 终将随之终止，此时不再执行监管策略，直接以系统消息终止故障的子 Actor。
+		// 故障的子 Actor 邮箱处于挂起状态，监督者优雅终止时下发的 Kill（普通消息）无法被其处理；若此时决策为 Escalate 等
+		// 不会恢复其邮箱的决策，该子 Actor 将永远无法终止，监督者也将永远停留在 killing 状态
+		for _, child := range supervisionContext.Child() {
+			c.Kill(child, false, "supervisor is terminating")
+		}
+		return
+	}
+
 	// 记录该 Actor 接管本次故障的后续处理
 	c.Logger().Debug("supervision: takeover", log.String("id", supervisionContext.ID()), log.String("supervisor_path", c.ref.GetPath()))
 	supervise(c, supervisionContext)
